@@ -47,8 +47,21 @@ def durable_copy_rule(ctx, rid):
         with_save = [h for h in sl if any(nm == saver for _, _, nm in all_calls(ctx, h))]
         with_rem = [h for h in sl if h not in with_save and any(nm in REMOVE or nm in RENAME for _, _, nm in all_calls(ctx, h))]
         need(with_save, "anchor lost: %s (and its helpers) never call %s" % (q, saver))
+        from ..util import callee_func
+        ge = build_cfg(entry.node)
         for h in with_save + with_rem:
-            work.append((h, saver, engines, h in with_save))
+            engs = engines
+            if h is not entry:
+                # a helper is judged for the engines under which the entry point reaches it (the engine dispatch stays in the caller)
+                sites = [(n_, c_) for n_ in ge.nodes for c_ in node_calls(n_) if callee_func(ctx, entry, c_) is h]
+                if not sites:
+                    raise AnalysisError("idiom changed: %s writes / removes the data in %s, which %s does not call directly" % (q, h.name, entry.name))
+                engs = []
+                for eng, kind in engines:
+                    fl_e = Flow(ge, {"engine": const(eng), "self.engine": const(eng)}).run()
+                    if any(n_.id in fl_e.visited for n_, _ in sites):
+                        engs.append((eng, kind))
+            work.append((h, saver, engs, h in with_save))
     for f, saver, engines, has_save in work:
         g = build_cfg(f.node)
         ctx.touch(f, g)
@@ -60,6 +73,14 @@ def durable_copy_rule(ctx, rid):
                     init[p_new[0]] = newv
                 fl = Flow(g, init).run()
                 vis = fl.visited
+                # the engine must still be known where the function branches on it (it is lost when it is re-bound from a helper's result)
+                from ..flow import is_const
+                for tn_ in g.nodes:
+                    if tn_.kind == "test" and tn_.id in vis and any(isinstance(x_, ast.Name) and x_.id == "engine" for x_ in ast.walk(tn_.ast)):
+                        env_ = fl.IN.get(tn_.id)
+                        ev_ = env_.get("engine") if env_ is not None and hasattr(env_, "get") else None
+                        if ev_ is None or not is_const(ev_):
+                            raise AnalysisError("idiom changed: %s branches on `engine` (`%s`) after re-binding it from something the analysis does not follow" % (f.qualname, norm(tn_.ast)[:40]))
                 calls = [(n, c, nm) for n, c, nm in all_calls(ctx, f, g) if n.id in vis]
                 saves = [(n, c) for n, c, nm in calls if nm == saver]
                 rems = [(n, c) for n, c, nm in calls if nm in REMOVE]
